@@ -1,6 +1,7 @@
 import Driver.Expr
 import Driver.Flow
 import Driver.Riscv
+import Driver.Msp430
 import Driver.Cond
 import Driver.Sym
 import Driver.TwoPass
@@ -8,11 +9,19 @@ import Driver.Sim
 import Driver.SimX
 import Driver.Mem
 import Driver.FileIO
+import Driver.Safe
 import Driver.Det
 import Driver.Util
 import Driver.Listing
 import Driver.Macro
 import Driver.Link
+import Driver.Reader
+
+/-- instruction-level commands: dispatch on the CPU name (first argument) -/
+def isa (cmd : String) (args : List String) : String :=
+  match args with
+  | "msp430" :: _ => Driver.Msp430.handle cmd args
+  | _ => Driver.Riscv.handle cmd args
 
 def dispatch (line : String) : String :=
   match (line.trimAscii.toString.splitOn " ").filter (· ≠ "") with
@@ -21,10 +30,10 @@ def dispatch (line : String) : String :=
   | "expr32" :: args => Driver.Expr.handle32 args
   | "asmret" :: args => Driver.Flow.handleAsmRet args
   | "mainflow" :: args => Driver.Flow.handleMain args
-  | "asm1" :: args => Driver.Riscv.handle "asm1" args
-  | "dis" :: args => Driver.Riscv.handle "dis" args
-  | "walk" :: args => Driver.Riscv.handle "walk" args
-  | "rt" :: args => Driver.Riscv.handle "rt" args
+  | "asm1" :: args => isa "asm1" args
+  | "dis" :: args => isa "dis" args
+  | "walk" :: args => isa "walk" args
+  | "rt" :: args => isa "rt" args
   | "cond" :: args => Driver.Cond.handle args
   | "skip" :: args => Driver.Cond.handleSkip args
   | "evop" :: args => Driver.Cond.handleEvop args
@@ -42,6 +51,14 @@ def dispatch (line : String) : String :=
   | "wr" :: args => Driver.FileIO.handleWr args
   | "s0" :: args => Driver.FileIO.handleS0 args
   | "rd" :: args => Driver.FileIO.handleRd args
+  | "srd" :: args => Driver.Safe.handleSrd args
+  | "snum" :: args => Driver.Safe.handleSnum args
+  | "saddr" :: args => Driver.Safe.handleSaddr args
+  | "srange" :: args => Driver.Safe.handleSrange args
+  | "swrite" :: args => Driver.Safe.handleSwrite args
+  | "sprint" :: args => Driver.Safe.handleSprint args
+  | "swalk" :: args => Driver.Safe.handleSwalk args
+  | "svalid" :: args => Driver.Safe.handleSvalid args
   | "det" :: args => Driver.Det.handle args
   | "detold" :: args => Driver.Det.handleBefore args
   | "util" :: args => Driver.Util.handle args
@@ -49,6 +66,9 @@ def dispatch (line : String) : String :=
   | "lst" :: args => Driver.Listing.handle args
   | "mexp" :: args => Driver.Macro.handleMexp args
   | "link" :: args => Driver.Link.handle args
+  | "tk" :: args => Driver.Reader.handleTk args
+  | "mp" :: args => Driver.Reader.handleMp args
+  | "mx" :: args => Driver.Reader.handleMx args
   | _ => "bad-op"
 
 partial def loop (h : IO.FS.Stream) (out : IO.FS.Stream) : IO Unit := do
